@@ -661,7 +661,7 @@ def valgrind_stage(binary, seed):
     srv = server.Server(binary, start_timeout=120.0)
     vglog = os.path.join(srv.dir, "memcheck.%p.log")
     srv.wrapper = ["valgrind", "--tool=memcheck", "--quiet", "--error-exitcode=0", "--num-callers=24",
-                   "--log-file=" + vglog, "--max-stackframe=8388608"]
+                   "--log-file=" + vglog, "--max-stackframe=8388608", "--vgdb=no"]   # no gdb-server pipes left in /tmp when the child is killed
     srv.start()
     ran = 0
     try:
